@@ -100,6 +100,7 @@ func ProfileFor(prop, tier string, seed uint64) *Profile {
 		pf.WalStmts = 2
 		pf.Stmts = [2]int{8, 35}
 		pf.MaxRows = 6
+		pf.WFail = 9 // statements refused at a later row log their rows and the compensation
 		pf.NestP = 0.1
 		pf.ContStmts = [2]int{3, 10}
 		if v == 6 { // many tables: catalog trees with internal roots
